@@ -37,7 +37,6 @@ var lexExtraShapes = []shape{
 func init() {
 	classes["@lead2"] = "\xc3\xd0\xd9\xc2"
 	classes["@cont"] = "\x80\x85\xa0\xa3\xa9\xbf"
-	classes["@bad"] = "$.,;!#%&@|"
 	register("LexTokens", H_LexTokens)
 }
 
